@@ -59,6 +59,7 @@ type LoadOpts struct {
 	Gen      bool // load generator packages
 	Controls []string
 	SSA      bool
+	NeedGen  bool // build parquetgen even without G_tc (corpus checks)
 }
 
 func repoDir() string {
@@ -105,7 +106,7 @@ func run(dir string, name string, args ...string) (string, error) {
 }
 
 // newScratch creates the temp module and builds parquetgen from the working tree.
-func newScratch() (*Universe, error) {
+func newScratch(buildGen bool) (*Universe, error) {
 	u := &Universe{Repo: repoDir(), Verif: verifDir()}
 	if _, err := os.Stat(filepath.Join(u.Repo, "go.mod")); err != nil {
 		return nil, fmt.Errorf("repository not found at %s: %v", u.Repo, err)
@@ -129,6 +130,9 @@ func newScratch() (*Universe, error) {
 	}
 	if err := os.WriteFile(filepath.Join(u.ModDir, "go.sum"), sum, 0o644); err != nil {
 		return nil, err
+	}
+	if !buildGen {
+		return u, nil
 	}
 	u.Gen = filepath.Join(tmp, "parquetgen")
 	if out, err := run(u.Repo, "go", "build", "-o", u.Gen, "./cmd/parquetgen"); err != nil {
@@ -182,7 +186,7 @@ func copyDir(src, dst string) error {
 
 func loadUniverse(o LoadOpts) (*Universe, error) {
 	t0 := time.Now()
-	u, err := newScratch()
+	u, err := newScratch(o.TC || o.NeedGen)
 	if err != nil {
 		return nil, err
 	}
